@@ -130,6 +130,29 @@ Theorem C20_shift_acceptance_kernel : forall erf Phi, (forall t, Phi t = (1 + er
 Proof. exact acceptance_shift_uniform_mt. Qed.
 Print Assumptions C20_shift_acceptance_kernel.
 
+
+(* composed, model jumps: with the uniform prior and the Gaussian balancing draw (the defaults) the compiled jump acceptances ARE the
+   Python ones; tr is arbitrary (a jump does not use the transition ratio) *)
+Theorem C20_jump_acceptance_kernels : forall tr betapdf ND,
+  (forall u, betapdf u (1149 / 200) (1149 / 200) * (11045219407152909 / 10 ^ 16) = ND * Rpower (u * (1 - u)) (949 / 200)) ->
+  forall mh,
+  (forall g d h s gs ds h0 hs s0 ss k lp lp0 jump sg sd pn pdc,
+   let prior := fun st => py_prior betapdf (s_gamma st) (s_delta st) in
+   0 < jump -> ~ (g = 0 /\ d = 0) ->
+   acceptance tr (uniform_prior_ratio ND) gaussian_jump_prob g d h s 0 gs 0 ds h0 hs s0 ss lp lp0 jump g d sg sd pn pdc =
+   jump_up_acc (fun st => qb_gauss st sg sd pn) prior mh (mkState g d k h s) lp (mkState 0 0 k h s) lp0 pdc) /\
+  (forall h s g0 gs d0 ds h0 hs s0 ss k0 lp lp0 jump sg sd pn pdc,
+   let prior := fun st => py_prior betapdf (s_gamma st) (s_delta st) in
+   0 < jump -> prior (mkState g0 d0 k0 h0 s0) <> 0 ->
+   acceptance tr (uniform_prior_ratio ND) gaussian_jump_prob 0 0 h s g0 gs d0 ds h0 hs s0 ss lp lp0 jump g0 d0 sg sd pn pdc =
+   jump_down_acc (fun st => qb_gauss st sg sd pn) prior mh (mkState 0 0 k0 h0 s0) lp (mkState g0 d0 k0 h0 s0) lp0 pdc).
+Proof.
+  intros tr betapdf ND Hb mh. split.
+  - intros. apply acceptance_jump_up_uniform_gaussian; assumption.
+  - intros. apply acceptance_jump_down_uniform_gaussian; assumption.
+Qed.
+Print Assumptions C20_jump_acceptance_kernels.
+
 (* with the flat prior the compiled prior ratio is 1 also across a model jump, where the Python priors give 3/pi^2: known finding *)
 Theorem C20_flat_prior_ratio_on_jumps_refuted : forall betapdf, flat_prior_ratio <> flat_prior_mt betapdf / 1.
 Proof. exact flat_prior_ratio_on_jumps_refuted. Qed.
